@@ -174,6 +174,28 @@ theorem get_le_spec (m : Mode) (t : Ty) (hw : wf t = true) (hb : size m t ≤ u3
     ∃ l, get m t = .ok l ∧ l.size ≤ size m t ∧ l.align = align m t :=
   get_total m t hw hb
 
+/-- **No false rejection (partial).**  On the class without inner tail padding, a type whose two
+    reference layouts agree (and whose sizes fit `u32`) is accepted: the pinned checker errs only towards
+    accepting too much there. (Outside the class it also rejects agreeing types, see
+    `check_rejects_agreeing_witness`.) -/
+theorem check_accepts_agreeing_partial (t : Ty) (hw : wf t = true)
+    (hh : noInnerTailPad .hlsl t = true) (hm : noInnerTailPad .metal t = true)
+    (bh : size .hlsl t ≤ u32Max) (bm : size .metal t ≤ u32Max) (ha : Agree t) :
+    checkAll [t] = .ok := by
+  obtain ⟨r, hr⟩ := checkOne_total t hw bh bm
+  have := checkOne_spec hw hh hm hr
+  simp only [ne_eq, ha.1, not_true_eq_false, if_false] at this
+  subst this
+  simp only [checkAll, checkFrom, hr]
+
+/-- outside that class the pinned checker also rejects types whose layouts agree:
+    `{ struct{float2; half3}[4] }` is 64 bytes with identical offsets under both rules, but is
+    rejected as "56 vs 64" -/
+theorem check_rejects_agreeing_witness :
+    let t := S [.arr (S [.vec .Float32 2, .vec .Float16 3]) 4]
+    wf t = true ∧ Agree t ∧ size .hlsl t = 64 ∧ checkAll [t] = .mismatch 0 ⟨56, 4⟩ ⟨64, 8⟩ := by
+  decide
+
 /-! ## The candidate fix (notes/C19.md) restores the full statements
 
 `getFix` = `get` + one statement at the end of the `Struct` arm (op `.roundSizeToAlign`);
